@@ -405,7 +405,7 @@ struct Puppet12::Impl {
         if (!co_buf.empty()) { Step d; out = flush(d); }   // a non-handshake record closes any open handshake record
         switch (m) {
         case M_CCS: {
-            Bytes pt = { 1 }; flip(pt, 0, s.flip_bit);
+            Bytes pt = { 1 }; if (!s.payload.empty()) pt = s.payload; flip(pt, 0, s.flip_bit);
             app(out, record(20, pt, s.prot, s.rec_version));
             derive_keys(); w_enc = true; w_seq = 0; break;   // pending write state becomes current: (re)derive from the present master, sequence number 0
         }
